@@ -155,6 +155,13 @@ def run_case(ctx, case, confirm=False):
                 if K == 0:
                     continue
                 k = 1 + fault[1] % K
+                if len(fault) > 2 and fault[2] % 2:
+                    # half of the plans aim at the neighbourhood of a workspace mutation (the state save just before /
+                    # after a directory is emptied, removed or hashed, or a script runs): that is where order matters
+                    hot = sorted({j + d for j, p in enumerate(points) if p[1] in ("emptyDirectory", "removePath", "hashWorkspace", "runShell")
+                                  for d in (-1, 0, 1) if 0 <= j + d < K})
+                    if hot:
+                        k = 1 + hot[fault[1] % len(hot)]
                 plog2 = os.path.join(base, "points%d.log" % fi)
                 plan_desc.append("exit at kill point %d/%d (%s %s)" % (k, K, points[k-1][1], points[k-1][2]))
                 rr = run_patched(confirm, W, argv(final), C1.env_for(W), plog2, kill_at=k)
@@ -204,8 +211,8 @@ def run_case(ctx, case, confirm=False):
         vlib.rmtree(base)
 
 I = st.integers(0, 400)
-fault_st = st.one_of(st.tuples(st.just("fail"), I), st.tuples(st.just("killstep"), I),
-                     st.tuples(st.just("exit"), I), st.tuples(st.just("exit"), I), st.tuples(st.just("exit"), I)).map(list)
+fault_st = st.one_of(st.tuples(st.just("fail"), I, I), st.tuples(st.just("killstep"), I, I),
+                     st.tuples(st.just("exit"), I, I), st.tuples(st.just("exit"), I, I), st.tuples(st.just("exit"), I, I)).map(list)
 def case_st(quick):
     return st.fixed_dictionaries({
         "model": projgen.model_st(2, 5 if quick else 6, richness=1),
